@@ -73,7 +73,7 @@ static void dump_state(unsigned long k)
 	fprintf(lpstate_f, "S %lu\n", k);
 	for(uint64_t i = 0; i < app_prog.lps; ++i) {
 		struct lp_ctx *lp = &lps[i];
-		const struct app_state *st = lp->state_pointer;
+		const struct app_state *st = app_state_of(i, lp->state_pointer);
 		uint64_t hh = 0, hl = 0;
 		for(array_count_t j = 0; j < array_count(lp->p.p_msgs); ++j) {
 			struct lp_msg *m = array_get_at(lp->p.p_msgs, j);
